@@ -14,6 +14,7 @@ import (
 )
 
 type Engine struct {
+	addrTakenSet map[*packages.Package]map[types.Object]bool
 	fset     *token.FileSet
 	pkgs     map[string]*packages.Package // by path
 	cs       *ContractSet
@@ -834,4 +835,35 @@ func (e *Engine) aliasPath(name string) string {
 		}
 	}
 	return ""
+}
+
+// addrTaken: o is a local variable (not a field, not package-level) whose address is taken by an `&o` expression
+// somewhere in its package's source.
+func (e *Engine) addrTaken(p *packages.Package, o types.Object) bool {
+	if p == nil || o == nil {
+		return false
+	}
+	if e.addrTakenSet == nil {
+		e.addrTakenSet = map[*packages.Package]map[types.Object]bool{}
+	}
+	set, ok := e.addrTakenSet[p]
+	if !ok {
+		set = map[types.Object]bool{}
+		for _, f := range p.Syntax {
+			ast.Inspect(f, func(n ast.Node) bool {
+				ue, ok := n.(*ast.UnaryExpr)
+				if !ok || ue.Op != token.AND {
+					return true
+				}
+				if id, ok := ast.Unparen(ue.X).(*ast.Ident); ok {
+					if v, ok := p.TypesInfo.Uses[id].(*types.Var); ok && !v.IsField() && v.Parent() != p.Types.Scope() {
+						set[v] = true
+					}
+				}
+				return true
+			})
+		}
+		e.addrTakenSet[p] = set
+	}
+	return set[o]
 }
